@@ -84,12 +84,13 @@ ELEMENTWISE_TM = {"offsets", "snaps", "beats"}
 
 
 class OrderInterp:
-    def __init__(self, ctx, qual: str, self_kind=None):
+    def __init__(self, ctx, qual: str, self_kind=None, normal: bool = False):
         self.ctx = ctx
         self.M = ctx.M
         self.qual = qual
-        self.fn = ctx.M.fn(qual)
-        self.ty = ctx.W.typer(qual, self_kind)
+        # normal=True: the function with its private helpers inlined (sa/normal.py), typed by a typer of that copy
+        self.fn = ctx.M.nfn(qual) if normal else ctx.M.fn(qual)
+        self.ty = ctx.W.typer_for(self.fn, self_kind) if normal else ctx.W.typer(qual, self_kind)
         self.env: Dict[str, Tag] = {}
         self.sites: List[Site] = []
         self._fresh = 0
@@ -550,10 +551,10 @@ class OrderInterp:
         return TOP
 
 
-def analyse_function(ctx, qual: str, self_kind=None) -> List[Site]:
-    key = ("order", qual, self_kind)
+def analyse_function(ctx, qual: str, self_kind=None, normal: bool = False) -> List[Site]:
+    key = ("order", qual, self_kind, normal)
     if key not in ctx.cache:
-        oi = OrderInterp(ctx, qual, self_kind)
+        oi = OrderInterp(ctx, qual, self_kind, normal)
         oi._group_src = {}
         # remember names bound to a groupby so that iterating them recovers the frame's tag
         for n in walk_no_nested(oi.fn.node):
